@@ -6,6 +6,9 @@ Line protocol of C12.
 * `parse  F | ids | ns`                 → `ok dataFile | dataSlice | volFile | volStart | volStop | len`
 * `items  F | ids | ns | c | idxs`      → one group per index: `file slice e₀ … e_k` (entry = 1000·file + slice, 0 = zero
                                            block) or `-1 <err>`
+* `dataset hdr | F | poolIds | poolNs | listing | filter | regexIds | extraNs | idxs | lists…` → data / vols / items of an
+  `H5SliceData` / `FastMRIDataset` / `CalgaryCampinasDataset` built from constructor arguments
+* `cmr ctx | ids | as | bs | idxs`       → data / vols / items of a `CMRxReconDataset`
 * `locate sizes | idx`                  → `ok d j`
 * `fake   coils seed`                   → `ok finalGlobal | blobsSource | offsetSource`
 * `shepp  coils seed zero k`            → `ok finalGlobal | offsetSource | noiseSource`
@@ -68,6 +71,65 @@ def encOps (g : List GOp) : List Int :=
     | .randn k => [3, (k : Int)]
     | .blobs => [4]
 
+def encExtra (f : Int) : Entry → Int
+  | .slice i => 500000 + 1000 * f + i
+  | .zero => 0
+
+/-- `dataset cls crop ctxArg mode listsRootGiven hasRegex hasExtra | F | poolIds | poolNs | listing | filter |
+regexIds | extraNs | idxs | list₀ | list₁ …` -/
+def opDataset (hdr : List Int) (Farg : FilterArg) (poolIds poolNs listing filter regexIds extraNs idxs : List Int)
+    (lists : List (List Int)) : String :=
+  match hdr with
+  | [cls, crop, ctxArg, mode, rootGiven, hasRegex, hasExtra] =>
+    let cl : H5Class := if cls = 1 then .fastmri else if cls = 2 then .calgary else .h5
+    let (F, c) := classParams cl (crop ≠ 0) Farg ctxArg.toNat
+    let sel : Selection Int :=
+      { listing := listing
+        filter := if mode = 1 ∨ mode = 3 then some filter else none
+        lists := if mode = 2 ∨ mode = 3 then some lists else none
+        listsRootGiven := rootGiven ≠ 0
+        hasRegex := hasRegex ≠ 0
+        regexOk := fun f => regexIds.contains f }
+    let nOf (f : Int) : Option Nat :=
+      match (poolIds.zip poolNs).lookup f with
+      | some n => if n < 0 then none else some n.toNat
+      | none => none
+    match buildH5 listingSortedCurrent (fun a b => decide (a ≤ b)) sel nOf F with
+    | .error e => "err " ++ errName e
+    | .ok P =>
+      let nMain (f : Int) : Nat := (nOf f).getD 0
+      let nX (f : Int) : Nat := (((poolIds.zip extraNs).lookup f).getD 0).toNat
+      okG ([P.data.map (·.1), P.data.map fun x => (x.2 : Int), P.vols.map (·.1),
+            P.vols.map fun x => (x.2.1 : Int), P.vols.map fun x => (x.2.2 : Int)] ++
+        idxs.map fun idx =>
+          match h5Item P nMain c idx with
+          | .error e => [-1, errCode e]
+          | .ok (f, s, es) =>
+            let main := f :: (s : Int) :: es.map (encEntry f)
+            if hasExtra ≠ 0 then
+              match h5ItemExtra P nX c idx with
+              | .ok xs => main ++ [-7] ++ xs.map (encExtra f)
+              | .error e => [-1, errCode e]
+            else main)
+  | _ => "err BadOp"
+
+def opCmr (ctxCode : Int) (ids as bs idxs : List Int) : String :=
+  let ctx : CmrContext := if ctxCode = 1 then .slice else if ctxCode = 2 then .time else .none
+  let shapes := ids.zip (as.zip bs)
+  let files : List (Int × Option (Nat × Nat)) :=
+    shapes.map fun (f, a, b) => (f, if a < 0 then none else some (a.toNat, b.toNat))
+  let P := cmrParse ctx files
+  let shapeOf (f : Int) : Nat × Nat :=
+    match shapes.lookup f with
+    | some (a, b) => (a.toNat, b.toNat)
+    | none => (0, 0)
+  okG ([P.data.map (·.1), P.data.map fun x => (x.2 : Int), P.vols.map (·.1),
+        P.vols.map fun x => (x.2.1 : Int), P.vols.map fun x => (x.2.2 : Int)] ++
+    idxs.map fun idx =>
+      match cmrItem P ctx shapeOf idx with
+      | .error e => [-1, errCode e]
+      | .ok (f, s, blk) => f :: (s : Int) :: blk.flatMap fun (k, l) => [(k : Int), (l : Int)])
+
 def step (op : String) (gs : List (List Int)) : String :=
   match op, gs with
   | "parse", [f, ids, ns] =>
@@ -78,6 +140,14 @@ def step (op : String) (gs : List (List Int)) : String :=
     match parseFilter f with
     | some F => if ids.length ≠ ns.length ∨ c < 0 then "err BadOp" else opItems F ids ns c.toNat idxs
     | none => "err BadOp"
+  | "dataset", hdr :: f :: poolIds :: poolNs :: listing :: filter :: regexIds :: extraNs :: idxs :: lists =>
+    match parseFilter f with
+    | some F =>
+      if poolIds.length ≠ poolNs.length ∨ poolIds.length ≠ extraNs.length then "err BadOp"
+      else opDataset hdr F poolIds poolNs listing filter regexIds extraNs idxs lists
+    | none => "err BadOp"
+  | "cmr", [[ctx], ids, as, bs, idxs] =>
+    if ids.length ≠ as.length ∨ ids.length ≠ bs.length then "err BadOp" else opCmr ctx ids as bs idxs
   | "locate", [sizes, [idx]] =>
     if sizes.any (· < 0) then "err BadOp" else
     match concatGet (nats sizes) idx with
